@@ -4,9 +4,21 @@ import Kolibrie.Lemmas.Joins
 namespace Kolibrie.Engine
 open List
 
-theorem unionRows_single (seed : Row) (v : Var) (x : Val) :
-    unionRows seed [(v, x)] = match Row.get seed v with | some _ => seed | none => Row.insert seed v x := by
-  simp [unionRows]
+theorem unionRows_single_some (seed : Row) (v : Var) (x y : Val) (h : Row.get seed v = some y) :
+    unionRows seed [(v, x)] = seed := by
+  simp [unionRows, h]
+
+theorem unionRows_single_none (seed : Row) (v : Var) (x : Val) (h : Row.get seed v = none) :
+    unionRows seed [(v, x)] = Row.insert seed v x := by
+  simp [unionRows, h]
+
+theorem matchTerm_var_none (v : Var) (x : Val) (b : Row) (h : Row.get b v = none) :
+    matchTerm (.var v) x b = some (Row.insert b v x) := by
+  simp [matchTerm, h]
+
+theorem matchTerm_var_some (v : Var) (x y : Val) (b : Row) (h : Row.get b v = some y) :
+    matchTerm (.var v) x b = if y == x then some b else none := by
+  simp [matchTerm, h]
 
 theorem wf_single (v : Var) (x : Val) : Row.WF [(v, x)] := by simp [Row.WF]
 
@@ -28,7 +40,6 @@ theorem matchTerm_seed (t : Term) (x : Val) (seed : Row) (hs : Row.WF seed) :
   | var v =>
     rw [matchTerm_nil]
     simp only [Option.bind_some]
-    unfold matchTerm
     cases hg : Row.get seed v with
     | none =>
       have hc : compat seed [(v, x)] := by
@@ -36,8 +47,9 @@ theorem matchTerm_seed (t : Term) (x : Val) (seed : Row) (hs : Row.WF seed) :
         by_cases hw : v = w
         · subst hw; rw [hg] at ha; cases ha
         · simp [Row.get_cons, hw, Row.get_nil] at hb
-      rw [mergeRows_some seed _ hs hc, unionRows_single, hg]
+      rw [mergeRows_some seed _ hs hc, unionRows_single_none seed v x hg, matchTerm_var_none v x seed hg]
     | some y =>
+      rw [matchTerm_var_some v x y seed hg]
       by_cases hyx : y = x
       · subst hyx
         have hc : compat seed [(v, y)] := by
@@ -46,7 +58,7 @@ theorem matchTerm_seed (t : Term) (x : Val) (seed : Row) (hs : Row.WF seed) :
           · subst hw; rw [hg] at ha; cases ha
             simp [Row.get_cons] at hb; exact hb
           · simp [Row.get_cons, hw, Row.get_nil] at hb
-        rw [mergeRows_some seed _ hs hc, unionRows_single, hg]
+        rw [mergeRows_some seed _ hs hc, unionRows_single_some seed v y y hg]
         simp
       · have hc : ¬ compat seed [(v, x)] := by
           intro h
@@ -63,14 +75,14 @@ theorem matchTerm_wf (t : Term) (x : Val) (b b' : Row) (hb : Row.WF b) (h : matc
     · cases h; exact hb
     · cases h
   | var v =>
-    simp only [matchTerm] at h
     cases hg : Row.get b v with
-    | none => rw [hg] at h; cases h; exact Row.wf_insert b v x hb
+    | none =>
+      rw [matchTerm_var_none v x b hg] at h; cases h; exact Row.wf_insert b v x hb
     | some y =>
-      rw [hg] at h
-      split at h
-      · cases h; exact hb
-      · cases h
+      rw [matchTerm_var_some v x y b hg] at h
+      by_cases hyx : (y == x) = true
+      · rw [if_pos hyx] at h; cases h; exact hb
+      · rw [if_neg hyx] at h; cases h
 
 /-- matching commutes with merging a seed in front -/
 theorem matchTerm_step (t : Term) (x : Val) (seed a : Row) (hs : Row.WF seed) (ha : Row.WF a) :
@@ -155,5 +167,384 @@ theorem runChain_wf (ts : List (Term × Val)) (row b : Row) (hr : Row.WF row) (h
     | some r' =>
       rw [hm] at h
       exact ih r' (matchTerm_wf _ _ row r' hr hm) h
+
+
+/-! ### the index lookup of a scan is only an optimisation -/
+
+theorem matchTerm_preserves (t : Term) (x : Val) (b b' : Row) (v : Var) (y : Val)
+    (h : matchTerm t x b = some b') (hv : Row.get b v = some y) : Row.get b' v = some y := by
+  cases t with
+  | const c =>
+    simp only [matchTerm] at h
+    by_cases hc : (c == x) = true
+    · rw [if_pos hc] at h; cases h; exact hv
+    · rw [if_neg hc] at h; cases h
+  | var w =>
+    cases hg : Row.get b w with
+    | none =>
+      rw [matchTerm_var_none w x b hg] at h; cases h
+      have : v ≠ w := fun e => by subst e; rw [hg] at hv; cases hv
+      rw [Row.get_insert_ne _ _ _ _ this]; exact hv
+    | some z =>
+      rw [matchTerm_var_some w x z b hg] at h
+      by_cases hzx : (z == x) = true
+      · rw [if_pos hzx] at h; cases h; exact hv
+      · rw [if_neg hzx] at h; cases h
+
+theorem boundOf_preserved (t' : Term) (x' : Val) (b b' : Row) (t : Term) (y : Val)
+    (h : matchTerm t' x' b = some b') (hb : boundOf t b = some y) : boundOf t b' = some y := by
+  cases t with
+  | const c => exact hb
+  | var v => exact matchTerm_preserves t' x' b b' v y h hb
+
+theorem matchTerm_none_of_bound (t : Term) (x y : Val) (b : Row) (hb : boundOf t b = some y) (hne : y ≠ x) :
+    matchTerm t x b = none := by
+  cases t with
+  | const c =>
+    simp only [boundOf] at hb; cases hb
+    simp [matchTerm, hne]
+  | var v =>
+    simp only [boundOf] at hb
+    rw [matchTerm_var_some v x y b hb]
+    simp [hne]
+
+/-- a chain fails as soon as one of its terms is already bound (or constant) to a different value -/
+theorem runChain_none_of_bound (ts : List (Term × Val)) (row : Row) (t : Term) (x y : Val)
+    (hm : (t, x) ∈ ts) (hb : boundOf t row = some y) (hne : y ≠ x) : runChain ts row = none := by
+  induction ts generalizing row with
+  | nil => simp at hm
+  | cons tx rest ih =>
+    simp only [runChain, foldlM_cons, Option.bind_eq_bind]
+    rcases mem_cons.1 hm with heq | hm'
+    · subst heq
+      rw [matchTerm_none_of_bound t x y row hb hne]; rfl
+    · cases hmt : matchTerm tx.1 tx.2 row with
+      | none => rfl
+      | some row' =>
+        simp only [Option.bind_some]
+        exact ih row' hm' (boundOf_preserved tx.1 tx.2 row row' t y hmt hb)
+
+theorem keyOk_false (k : Option Val) (x : Val) (h : keyOk k x = false) : ∃ y, k = some y ∧ y ≠ x := by
+  cases k with
+  | none => simp [keyOk] at h
+  | some y => exact ⟨y, rfl, by simpa [keyOk] using h⟩
+
+theorem filterMap_filter_and {α β} (l : List α) (p k : α → Bool) (f : α → Option β)
+    (h : ∀ a, p a = true → k a = false → f a = none) :
+    (l.filter (fun a => p a && k a)).filterMap f = (l.filter p).filterMap f := by
+  induction l with
+  | nil => rfl
+  | cons a l ih =>
+    by_cases hp : p a = true
+    · by_cases hk : k a = true
+      · simp only [filter_cons, hp, hk, Bool.and_self, if_true, filterMap_cons, ih]
+      · have hk' : k a = false := by simpa using hk
+        simp only [filter_cons, hp, hk', Bool.and_false, Bool.false_eq_true, if_false, if_true,
+          filterMap_cons, h a hp hk', ih]
+    · have hp' : p a = false := by simpa using hp
+      simp only [filter_cons, hp', Bool.false_and, Bool.false_eq_true, if_false, ih]
+
+/-- the quads a scan really has to look at: those of the graph (the key constraints only prune) -/
+theorem scanOneGraph_eq (db : DB) (pat : QPat) (g : Option Val) (gb : Option (Var × Val)) (row : Row) :
+    scanOneGraph db pat g gb row =
+      (db.quads.filter (fun q => q.g == g)).filterMap (fun q => runChain (quadChain pat gb q) row) := by
+  have hA : scanOneGraph db pat g gb row =
+      (queryGraph db g pat row).filterMap (fun q => runChain (quadChain pat gb q) row) := by
+    unfold scanOneGraph
+    apply filterMap_congr'
+    intro q _
+    cases gb with
+    | none =>
+      simp only [graphSeed, quadChain, nil_append, runChain, Option.bind_some]
+      exact matchTriple_eq_chain pat q.s q.p q.o row
+    | some vg =>
+      obtain ⟨v, gv⟩ := vg
+      simp only [quadChain, runChain, singleton_append, foldlM_cons, Option.bind_eq_bind]
+      have hseed : graphSeed (some (v, gv)) row = matchTerm (.var v) gv row := by
+        cases hg : Row.get row v <;> simp [graphSeed, matchTerm, hg]
+      rw [hseed]
+      cases matchTerm (.var v) gv row with
+      | none => rfl
+      | some sd => simp only [Option.bind_some]; exact matchTriple_eq_chain pat q.s q.p q.o sd
+  rw [hA]
+  unfold queryGraph
+  have e : (fun q : Quad => q.g == g && keyOk (boundOf pat.s row) q.s && keyOk (boundOf pat.p row) q.p &&
+        keyOk (boundOf pat.o row) q.o) =
+      (fun q : Quad => q.g == g && (keyOk (boundOf pat.s row) q.s && keyOk (boundOf pat.p row) q.p &&
+        keyOk (boundOf pat.o row) q.o)) := by
+    funext q; simp [Bool.and_assoc]
+  rw [e]
+  apply filterMap_filter_and
+  intro q _ hk
+  have hmem : ∀ tx, tx ∈ [(pat.s, q.s), (pat.p, q.p), (pat.o, q.o)] → tx ∈ quadChain pat gb q := by
+    intro tx h; unfold quadChain; exact mem_append_right _ h
+  simp only [Bool.and_eq_false_iff] at hk
+  rcases hk with (hk | hk) | hk
+  · obtain ⟨y, hy, hne⟩ := keyOk_false _ _ hk
+    exact runChain_none_of_bound _ row pat.s q.s y (hmem _ (by simp)) hy hne
+  · obtain ⟨y, hy, hne⟩ := keyOk_false _ _ hk
+    exact runChain_none_of_bound _ row pat.p q.p y (hmem _ (by simp)) hy hne
+  · obtain ⟨y, hy, hne⟩ := keyOk_false _ _ hk
+    exact runChain_none_of_bound _ row pat.o q.o y (hmem _ (by simp)) hy hne
+
+/-- **one-graph scans are input-independent** -/
+theorem scanOneGraph_seed (db : DB) (pat : QPat) (g : Option Val) (gb : Option (Var × Val)) (row : Row)
+    (hr : Row.WF row) :
+    scanOneGraph db pat g gb row = (scanOneGraph db pat g gb []).filterMap (mergeRows row) := by
+  rw [scanOneGraph_eq db pat g gb row, scanOneGraph_eq db pat g gb [], filterMap_filterMap]
+  apply filterMap_congr'
+  intro q _
+  exact runChain_seed _ row hr
+
+theorem scanOneGraph_wf (db : DB) (pat : QPat) (g : Option Val) (gb : Option (Var × Val)) (row : Row)
+    (hr : Row.WF row) : AllWF (scanOneGraph db pat g gb row) := by
+  rw [scanOneGraph_eq]
+  intro r hr'
+  obtain ⟨q, _, hq⟩ := mem_filterMap.1 hr'
+  exact runChain_wf _ row r hr hq
+
+
+/-! ### the merged default graph -/
+
+theorem nodup_filter' {α} (p : α → Bool) {l : List α} (h : l.Nodup) : (l.filter p).Nodup :=
+  List.Pairwise.filter _ h
+
+theorem eraseDups_filter {α} [BEq α] [LawfulBEq α] (l : List α) (p : α → Bool) :
+    (l.filter p).eraseDups = l.eraseDups.filter p := by
+  generalize hn : l.length = n
+  induction n using Nat.strongRecOn generalizing l with
+  | _ n ih =>
+    cases l with
+    | nil => simp
+    | cons a as =>
+      have hlen : (as.filter fun b => !b == a).length < n := by
+        subst hn; simp only [length_cons]; exact Nat.lt_succ_of_le (length_filter_le _ _)
+      rw [eraseDups_cons]
+      by_cases hp : p a = true
+      · rw [filter_cons, if_pos hp, eraseDups_cons, filter_cons, if_pos hp]
+        congr 1
+        rw [← ih _ hlen _ rfl, filter_filter, filter_filter]
+        congr 1
+        apply filter_congr
+        intro x _
+        exact Bool.and_comm _ _
+      · rw [filter_cons, if_neg hp, filter_cons, if_neg hp, ← ih _ hlen _ rfl, filter_filter]
+        congr 1
+        apply filter_congr
+        intro x _
+        by_cases hx : p x = true
+        · have : (x == a) = false := by
+            apply beq_false_of_ne; intro e; subst e; exact hp hx
+          simp [hx, this]
+        · have hx' : p x = false := by simpa using hx
+          simp [hx']
+
+theorem filter_flatMap' {α β} (l : List α) (f : α → List β) (p : β → Bool) :
+    (l.flatMap f).filter p = l.flatMap (fun a => (f a).filter p) := by
+  induction l with
+  | nil => rfl
+  | cons a l ih => simp [filter_append, ih]
+
+abbrev Triple := Val × Val × Val
+def tr (q : Quad) : Triple := (q.s, q.p, q.o)
+
+/-- key constraints of a scan, on triples -/
+def keysOk (pat : QPat) (row : Row) (t : Triple) : Bool :=
+  keyOk (boundOf pat.s row) t.1 && keyOk (boundOf pat.p row) t.2.1 && keyOk (boundOf pat.o row) t.2.2
+
+/-- the distinct triples of the merged default graph -/
+def defaultTriples (db : DB) (view : View) : List Triple :=
+  (view.dflt.flatMap (fun g => (db.quads.filter (fun q => q.g == g)).map tr)).eraseDups
+
+theorem matchTriple_none_of_keys (pat : QPat) (row : Row) (t : Triple) (h : keysOk pat row t = false) :
+    matchTriple pat t.1 t.2.1 t.2.2 row = none := by
+  rw [matchTriple_eq_chain]
+  simp only [keysOk, Bool.and_eq_false_iff] at h
+  rcases h with (h | h) | h
+  · obtain ⟨y, hy, hne⟩ := keyOk_false _ _ h
+    exact runChain_none_of_bound _ row pat.s t.1 y (by simp) hy hne
+  · obtain ⟨y, hy, hne⟩ := keyOk_false _ _ h
+    exact runChain_none_of_bound _ row pat.p t.2.1 y (by simp) hy hne
+  · obtain ⟨y, hy, hne⟩ := keyOk_false _ _ h
+    exact runChain_none_of_bound _ row pat.o t.2.2 y (by simp) hy hne
+
+theorem filterMap_filter_drop {α β} (l : List α) (k : α → Bool) (f : α → Option β)
+    (h : ∀ a, k a = false → f a = none) : (l.filter k).filterMap f = l.filterMap f := by
+  induction l with
+  | nil => rfl
+  | cons a l ih =>
+    by_cases hk : k a = true
+    · simp only [filter_cons, hk, if_true, filterMap_cons, ih]
+    · have hk' : k a = false := by simpa using hk
+      simp only [filter_cons, hk', Bool.false_eq_true, if_false, filterMap_cons, h a hk', ih]
+
+theorem scanDefault_eq (db : DB) (pat : QPat) (view : View) (row : Row) :
+    scanDefault db pat view row =
+      (defaultTriples db view).filterMap (fun t => matchTriple pat t.1 t.2.1 t.2.2 row) := by
+  unfold scanDefault defaultTriples
+  have h1 : ∀ g, (queryGraph db g pat row).map (fun q => (q.s, q.p, q.o)) =
+      ((db.quads.filter (fun q => q.g == g)).map tr).filter (keysOk pat row) := by
+    intro g
+    unfold queryGraph
+    rw [filter_map, filter_filter]
+    congr 1
+    apply filter_congr
+    intro q _
+    simp [keysOk, tr, Function.comp, Bool.and_assoc, Bool.and_comm]
+  have h2 : (view.dflt.flatMap (fun g => (queryGraph db g pat row).map (fun q => (q.s, q.p, q.o)))) =
+      (view.dflt.flatMap (fun g => (db.quads.filter (fun q => q.g == g)).map tr)).filter (keysOk pat row) := by
+    rw [filter_flatMap']
+    apply flatMap_congr'
+    intro g _
+    exact h1 g
+  simp only
+  rw [h2, eraseDups_filter]
+  have h3 := filterMap_filter_drop
+    ((view.dflt.flatMap (fun g => (db.quads.filter (fun q => q.g == g)).map tr)).eraseDups)
+    (keysOk pat row) (fun t => matchTriple pat t.1 t.2.1 t.2.2 row) (matchTriple_none_of_keys pat row)
+  rw [← h3]
+
+theorem matchTriple_seed (pat : QPat) (s p o : Val) (row : Row) (hr : Row.WF row) :
+    matchTriple pat s p o row = (matchTriple pat s p o []).bind (mergeRows row) := by
+  rw [matchTriple_eq_chain, matchTriple_eq_chain]
+  exact runChain_seed _ row hr
+
+/-- **default-graph scans are input-independent** -/
+theorem scanDefault_seed (db : DB) (pat : QPat) (view : View) (row : Row) (hr : Row.WF row) :
+    scanDefault db pat view row = (scanDefault db pat view []).filterMap (mergeRows row) := by
+  rw [scanDefault_eq db pat view row, scanDefault_eq db pat view [], filterMap_filterMap]
+  apply filterMap_congr'
+  intro t _
+  exact matchTriple_seed pat t.1 t.2.1 t.2.2 row hr
+
+theorem scanDefault_wf (db : DB) (pat : QPat) (view : View) (row : Row) (hr : Row.WF row) :
+    AllWF (scanDefault db pat view row) := by
+  rw [scanDefault_eq]
+  intro r hr'
+  obtain ⟨t, _, ht⟩ := mem_filterMap.1 hr'
+  rw [matchTriple_eq_chain] at ht
+  exact runChain_wf _ row r hr ht
+
+
+/-! ### scans over a graph variable, and the scan operator -/
+
+theorem flatMap_single_of_nodup {α β} [DecidableEq α] (L : List α) (hnd : L.Nodup) (g : α) (f : α → List β)
+    (h : ∀ g' ∈ L, g' ≠ g → f g' = []) : L.flatMap f = if g ∈ L then f g else [] := by
+  induction L with
+  | nil => simp
+  | cons a L ih =>
+    have hnd' := (nodup_cons.1 hnd)
+    simp only [flatMap_cons]
+    by_cases hag : a = g
+    · subst hag
+      have : L.flatMap f = [] := by
+        rw [ih hnd'.2 (fun g' hg' hne => h g' (by simp [hg']) hne), if_neg hnd'.1]
+      simp [this]
+    · rw [h a (by simp) hag, ih hnd'.2 (fun g' hg' hne => h g' (by simp [hg']) hne)]
+      have : (g ∈ a :: L) ↔ g ∈ L := by
+        simp only [mem_cons]
+        constructor
+        · rintro (e | e)
+          · exact absurd e.symm hag
+          · exact e
+        · exact Or.inr
+      simp only [nil_append]
+      by_cases hm : g ∈ L
+      · rw [if_pos hm, if_pos (this.2 hm)]
+      · rw [if_neg hm, if_neg (fun x => hm (this.1 x))]
+
+theorem scanOneGraph_other_graph (db : DB) (pat : QPat) (g' g : Val) (v : Var) (row : Row)
+    (hv : Row.get row v = some g) (hne : g' ≠ g) : scanOneGraph db pat (some g') (some (v, g')) row = [] := by
+  rw [scanOneGraph_eq]
+  apply filterMap_eq_nil_of_forall
+  intro q _
+  apply runChain_none_of_bound _ row (.var v) g' g
+  · simp [quadChain]
+  · exact hv
+  · exact fun e => hne e.symm
+
+/-- **scanning with an incoming row = merging the row into the scan's own solutions** -/
+theorem scanRow_seed (db : DB) (ctx : Ctx) (pat : QPat) (row : Row) (hr : Row.WF row)
+    (hn : ctx.view.named.Nodup) :
+    scanRow db ctx pat row = (scanRow db ctx pat []).filterMap (mergeRows row) := by
+  unfold scanRow
+  cases hg : pat.g with
+  | dflt =>
+    simp only
+    cases ctx.active with
+    | none => exact scanDefault_seed db pat ctx.view row hr
+    | some g => exact scanOneGraph_seed db pat (some g) none row hr
+  | named g =>
+    simp only
+    by_cases hvis : visibleNamed db ctx g = true
+    · rw [if_pos hvis, if_pos hvis]; exact scanOneGraph_seed db pat (some g) none row hr
+    · rw [if_neg hvis, if_neg hvis]; rfl
+  | var v =>
+    simp only [Row.get_nil]
+    rw [flatMap_filterMap_eq]
+    cases hv : Row.get row v with
+    | none =>
+      simp only
+      apply flatMap_congr'
+      intro g _
+      exact scanOneGraph_seed db pat (some g) (some (v, g)) row hr
+    | some g =>
+      simp only
+      have hL : (ctx.view.named.filter (fun g => db.graphExists g)).Nodup := nodup_filter' _ hn
+      have hflat : (ctx.view.named.filter (fun g => db.graphExists g)).flatMap
+            (fun g' => (scanOneGraph db pat (some g') (some (v, g')) []).filterMap (mergeRows row)) =
+          (ctx.view.named.filter (fun g => db.graphExists g)).flatMap
+            (fun g' => scanOneGraph db pat (some g') (some (v, g')) row) := by
+        apply flatMap_congr'
+        intro g' _
+        exact (scanOneGraph_seed db pat (some g') (some (v, g')) row hr).symm
+      rw [hflat, flatMap_single_of_nodup _ hL g _
+        (fun g' _ hne => scanOneGraph_other_graph db pat g' g v row hv hne)]
+      have hvis : visibleNamed db ctx g = true ↔ g ∈ ctx.view.named.filter (fun g => db.graphExists g) := by
+        simp [visibleNamed, mem_filter]
+      by_cases hm : g ∈ ctx.view.named.filter (fun g => db.graphExists g)
+      · rw [if_pos hm, if_pos (hvis.2 hm)]
+      · rw [if_neg hm, if_neg (fun x => hm (hvis.1 x))]
+
+theorem scanRow_wf (db : DB) (ctx : Ctx) (pat : QPat) (row : Row) (hr : Row.WF row) :
+    AllWF (scanRow db ctx pat row) := by
+  unfold scanRow
+  cases pat.g with
+  | dflt =>
+    simp only
+    cases ctx.active with
+    | none => exact scanDefault_wf db pat ctx.view row hr
+    | some g => exact scanOneGraph_wf db pat (some g) none row hr
+  | named g =>
+    simp only
+    split
+    · exact scanOneGraph_wf db pat (some g) none row hr
+    · exact allWF_nil
+  | var v =>
+    simp only
+    cases Row.get row v with
+    | none =>
+      simp only
+      exact allWF_flatMap _ _ (fun g _ => scanOneGraph_wf db pat (some g) (some (v, g)) row hr)
+    | some g =>
+      simp only
+      split
+      · exact scanOneGraph_wf db pat (some g) (some (v, g)) row hr
+      · exact allWF_nil
+
+/-- **the scan operator is input-independent** (as lists, not only as multisets) -/
+theorem scan_seed (db : DB) (ctx : Ctx) (pat : QPat) (inc : List Row) (hi : AllWF inc)
+    (hn : ctx.view.named.Nodup) :
+    scan db ctx pat inc = nlJoin inc (scan db ctx pat [[]]) := by
+  unfold scan nlJoin
+  simp only [flatMap_cons, flatMap_nil, append_nil]
+  apply flatMap_congr'
+  intro row hrow
+  exact scanRow_seed db ctx pat row (hi row hrow) hn
+
+theorem scan_wf (db : DB) (ctx : Ctx) (pat : QPat) (inc : List Row) (hi : AllWF inc) :
+    AllWF (scan db ctx pat inc) := by
+  unfold scan
+  exact allWF_flatMap _ _ (fun row hrow => scanRow_wf db ctx pat row (hi row hrow))
 
 end Kolibrie.Engine
